@@ -20,7 +20,7 @@ LEVEL = "exploration"
 TECHNIQUE = "bounded exhaustive enumeration of (valid call, single ill-posing edit) pairs on every axis layout; the edited real call must raise"
 RULE = "case = (valid call, edit); every case is non-trivial by construction: its unedited twin returned on the same grid"
 SPACE = {
-    "quick": "16 layouts x n in {2,3,4} x valid shifts x {diff,interp,min,max,cumsum} x edits {unknown axis, unknown axis in list, data lacks axis dim, data has two axis dims (each other position), to = current position, to = each position the axis lacks, to = unknown word, unknown boundary word (call scalar / call mapping / constructor), string fill value (call scalar / call mapping / constructor) on padded shifts}; transform edits; grid ufunc edits",
+    "quick": "16 layouts x n in {2,3,4} x valid shifts x {diff,interp,min,max,cumsum} x edits {unknown axis, unknown axis in list, data lacks axis dim, data has two axis dims (each other position), to = current position, to = each position the axis lacks, to = unknown word, unknown boundary word (call scalar / call mapping / constructor), string fill value (call scalar / call mapping / constructor) on padded shifts}; transform edits (bins as ndarray and as DataArray); grid ufunc edits; metric operations (integrate, average, get_metric, derivative, cumint, metric_weighted) x {unknown axis, lacking / doubled axis dimension}",
     "thorough": "n in {2,3,4,5,6}",
 }
 BOUNDS = {"quick": {"n": [2, 3, 4]}, "thorough": {"n": [2, 3, 4, 5, 6]}}
@@ -176,6 +176,11 @@ def transform_edits(rec, seed, only=None):
             for bi, bad in enumerate(([0.0, 2.0, 1.0], [0.0, 1.0, 1.0], [3.0, 1.0, 2.0, 0.0], [1.0, 1.0])):
                 t_d = tdo if name == "conservative" else td
                 edits.append((f"non-monotonic-bins:{bi}", lambda bad=bad, t_d=t_d: g0.transform(da, "Z", np.array(bad), target_data=t_d, method="conservative")))
+                # the same bins handed over as a DataArray without a coordinate / with a label coordinate
+                edits.append((f"non-monotonic-bins-dataarray:{bi}", lambda bad=bad, t_d=t_d: g0.transform(
+                    da, "Z", xr.DataArray(np.array(bad), dims=["bins"]), target_data=t_d, method="conservative")))
+                edits.append((f"non-monotonic-bins-labelled-dataarray:{bi}", lambda bad=bad, t_d=t_d: g0.transform(
+                    da, "Z", xr.DataArray(np.array(bad), dims=["bins"], coords={"bins": np.arange(len(bad))}), target_data=t_d, method="conservative")))
             edits.append(("no-outer-position", lambda: mk(outer=False).transform(da, "Z", bins, target_data=td, method="conservative")))
         for ename, efn in edits:
             case = dict(kind="transform", call=name, edit=ename)
@@ -183,6 +188,48 @@ def transform_edits(rec, seed, only=None):
                 continue
             rec.case(("tr", name, ename), True, sample=case)
             attempt(rec, "transform", f"{ename.split(':')[0]}:{name}", case, efn)
+
+
+def metric_edits(rec, seed, only=None):
+    """reductions and operations that go through the metric lookup"""
+    from xgcm import Grid
+
+    n = 3
+    lay = {"X": ("center", "left", "outer"), "Y": ("center", "left")}
+    ds = S.make_ds(lay, {"X": n, "Y": 2})
+    for p in lay["X"]:
+        ds["dx_" + p] = ((S.dimname("X", p),), np.arange(S.pos_len(p, n)) + 1.0)
+    ds["dy_c"] = (("yc",), np.array([2.0, 3.0]))
+    with warnings.catch_warnings():
+        warnings.simplefilter("ignore")
+        g = Grid(ds, coords=S.grid_coords(lay), periodic=False, boundary="extend", autoparse_metadata=False,
+                 metrics={("X",): ["dx_" + p for p in lay["X"]], ("Y",): ["dy_c"]})
+    da = xr.DataArray(np.arange(2.0 * n).reshape(2, n) + 1, dims=["yc", "xc"])
+    two = da.expand_dims({"xl": n})
+    two_o = da.expand_dims({"xo": n + 1})
+    calls = {
+        "integrate": lambda d, ax: g.integrate(d, ax), "average": lambda d, ax: g.average(d, ax), "get_metric": lambda d, ax: g.get_metric(d, (ax,) if isinstance(ax, str) else ax),
+        "derivative": lambda d, ax: g.derivative(d, ax), "cumint": lambda d, ax: g.cumint(d, ax, to="left", boundary="fill"),
+        "interp-mw": lambda d, ax: g.interp(d, ax, metric_weighted=ax),
+    }
+    for name, fn in calls.items():
+        try:
+            with warnings.catch_warnings():
+                warnings.simplefilter("ignore")
+                fn(da, "X")
+        except Exception:
+            rec.counters["valid-twin-raised"] += 1
+            continue
+        edits = [("unknown-axis", lambda fn=fn: fn(da, "Q")), ("data-lacks-axis-dim", lambda fn=fn: fn(da.rename(xc="foo"), "X")),
+                 ("data-has-two-axis-dims:left", lambda fn=fn: fn(two, "X")), ("data-has-two-axis-dims:outer", lambda fn=fn: fn(two_o, "X"))]
+        if name in ("integrate", "average", "get_metric"):
+            edits += [("unknown-axis-in-list", lambda fn=fn: fn(da, ["X", "Q"])), ("two-axis-dims-in-multi-axis-request", lambda fn=fn: fn(two, ["Y", "X"]))]
+        for ename, efn in edits:
+            case = dict(kind="metric", call=name, edit=ename)
+            if only is not None and only != case:
+                continue
+            rec.case(("met", name, ename), True, sample=case)
+            attempt(rec, "metric-op", f"{ename.split(':')[0]}:{name}", case, efn)
 
 
 def ufunc_edits(rec, seed, only=None):
@@ -222,7 +269,7 @@ def ufunc_edits(rec, seed, only=None):
 
 
 def shards(tier, seed):
-    return [("lay", li, n) for li in range(len(S.LAYOUTS)) for n in BOUNDS[tier]["n"]] + [("transform",), ("ufunc",)]
+    return [("lay", li, n) for li in range(len(S.LAYOUTS)) for n in BOUNDS[tier]["n"]] + [("transform",), ("ufunc",), ("metric",)]
 
 
 def run_shard(shard, tier, seed, rec):
@@ -230,6 +277,8 @@ def run_shard(shard, tier, seed, rec):
         layout_edits(rec, shard[1], shard[2], seed)
     elif shard[0] == "transform":
         transform_edits(rec, seed)
+    elif shard[0] == "metric":
+        metric_edits(rec, seed)
     else:
         ufunc_edits(rec, seed)
 
@@ -239,5 +288,7 @@ def replay_case(case, seed, rec):
         transform_edits(rec, seed, only=case)
     elif case.get("kind") == "ufunc":
         ufunc_edits(rec, seed, only=case)
+    elif case.get("kind") == "metric":
+        metric_edits(rec, seed, only=case)
     else:
         layout_edits(rec, case["li"], case["n"], seed, only=case)
